@@ -545,7 +545,7 @@ func runCase(c *caseSpec, inject bool) *result {
 	if k <= 0 {
 		k = 3
 		if hlsStream {
-			k = 6
+			k = 9
 		}
 	}
 	var vseq, aseq uint16 = 20000, 30000
@@ -700,34 +700,31 @@ func continuation(r *rig, probe []probeAU, hasFLV, hasHLS bool, hlsBound time.Du
 		if flvMiss != "" && hlsBound > time.Second {
 			hlsBound = time.Second // the frames did not even reach the FLV side: do not wait long again
 		}
-		// With six probe units 0.6 s apart and 1-second fragments, each of the first
-		// three units lies in a segment that has been cut by the time the sixth unit
-		// has arrived; one of them is the first FRAGMENTED key picture, and that one
-		// is demanded (a well-formed fragmented IDR must still reach HLS). Shorter
-		// probes: any unit.
-		var must []byte
-		if len(probe) >= 6 {
-			for _, au := range probe[:3] {
-				if au.fragmented {
-					must = au.vtag
-				}
-			}
+		// A well-formed FRAGMENTED key picture must still reach HLS: one of the
+		// probe's fragmented units (three of nine) has to show up in a served
+		// segment. (Which units lie in segments already cut when the probe ends
+		// depends on how audio and video presentation times interleave; the last
+		// units are always still in the open segment.)
+		frag := false
+		for _, au := range probe {
+			frag = frag || au.fragmented
 		}
 		ok := mediah.WaitFor(hlsBound, func() bool {
-			if must != nil {
-				return r.hlsHas(must)
-			}
 			for _, au := range probe {
-				if r.hlsHas(au.vtag) {
+				if (au.fragmented || !frag) && r.hlsHas(au.vtag) {
 					return true
 				}
 			}
 			return false
 		})
+		var must []byte
+		if frag {
+			must = []byte{1}
+		}
 		if !ok {
 			what := fmt.Sprintf("any of the %d probe key frames", len(probe))
 			if must != nil {
-				what = "the first fragmented probe key frame"
+				what = "any of the fragmented probe key frames"
 			}
 			hlsMiss = fmt.Sprintf("HLS: no segment served by the playlist holds %s within %v", what, hlsBound)
 		}
